@@ -62,7 +62,18 @@ fn build(rng: &mut Rng, kind: Kind) -> Built {
     } as usize;
     let n = if matches!(kind, Kind::MissingName | Kind::OutOfRange) { n.max(1) } else { n };
     let padded = rng.chance(1, 2);
-    let names = super::pack::distinct_names(rng, n);
+    let mut names = super::pack::distinct_names(rng, n);
+    if n > 0 && rng.chance(1, 6) {
+        // a long name around the 64 / 128 / 256 byte marks with a double-byte character whose trail
+        // byte looks like a lead byte near the mark (block-wise string decoders)
+        let b = *rng.pick(&[64usize, 128, 256]);
+        let cands = super::pack::boundary_names(rng, b, 2);
+        let i = rng.below(n as u64) as usize;
+        let c = rng.pick(&cands).clone();
+        if !names.contains(&c) {
+            names[i] = c;
+        }
+    }
     let mut files: Vec<(String, Vec<u8>)> = Vec::new();
     for name in names {
         let l = match rng.below(6) {
@@ -324,6 +335,22 @@ fn build(rng: &mut Rng, kind: Kind) -> Built {
     if rng.chance(1, 4) {
         want.push((count_addr, "Extra".to_string()));
     }
+    // labels on the record addresses (as real arc files have them): "Data" and the record's own file
+    // name; the first record's address is the Info address, so these share the Info bucket
+    if rng.chance(1, 2) {
+        for i in 0..n {
+            if rng.chance(2, 3) && files[i].0 != "Count" && files[i].0 != "Info" {
+                want.push((info_addr + 16 * i, files[i].0.clone()));
+            }
+            if rng.chance(1, 4) {
+                want.push((info_addr + 16 * i, "Data".to_string()));
+            }
+        }
+        if rng.chance(1, 4) {
+            let cands = super::pack::boundary_names(rng, 64, 1);
+            want.push((info_addr, rng.pick(&cands).clone()));
+        }
+    }
     if rng.chance(1, 5) && !matches!(kind, Kind::NoCount | Kind::NoBoth) && count_addr + 4 <= data_len {
         let hi = count_addr + 4 * rng.range(1, ((data_len - count_addr) / 4) as u64) as usize;
         want.push((hi, "Count".to_string()));
@@ -338,11 +365,41 @@ fn build(rng: &mut Rng, kind: Kind) -> Built {
             labels.push((addr, l));
         }
     }
-    let img = a.serialize().unwrap();
+    let mut img = a.serialize().unwrap();
+    // `serialize` writes the label table sorted by address; a conforming image may list the rows in
+    // any order (rows of one address need not be adjacent): by name, reversed, random
+    permute_label_rows(&mut img, rng.below(5), rng);
     // the data block as serialized: the c-string pool (if any) has been appended to the data
     let data_len = u32::from_le_bytes([img[4], img[5], img[6], img[7]]) as usize;
     assert_eq!(data_len, final_len, "c-string pool size mispredicted");
     Built { img, data_len, strings, labels, files, padded, count_addr, info_addr }
+}
+
+/// Reorders the 8-byte rows `(address, name offset)` of the label table in place.
+/// mode 0, 1: unchanged; 2: sorted by label name; 3: reversed; 4: random.
+fn permute_label_rows(img: &mut Vec<u8>, mode: u64, rng: &mut Rng) {
+    let w = |img: &Vec<u8>, p: usize| u32::from_le_bytes([img[p], img[p + 1], img[p + 2], img[p + 3]]) as usize;
+    let (ds, np, nl) = (w(img, 4), w(img, 8), w(img, 12));
+    let lo = 0x20 + ds + 4 * np;
+    let text = lo + 8 * nl;
+    if mode < 2 || nl < 2 {
+        return;
+    }
+    let mut rows: Vec<[u8; 8]> = (0..nl).map(|i| img[lo + 8 * i..lo + 8 * i + 8].try_into().unwrap()).collect();
+    match mode {
+        2 => {
+            let name = |r: &[u8; 8]| -> Vec<u8> {
+                let off = u32::from_le_bytes([r[4], r[5], r[6], r[7]]) as usize;
+                img[text + off..].iter().cloned().take_while(|b| *b != 0).collect()
+            };
+            rows.sort_by_key(|r| name(r));
+        }
+        3 => rows.reverse(),
+        _ => rng.shuffle(&mut rows),
+    }
+    for (i, r) in rows.iter().enumerate() {
+        img[lo + 8 * i..lo + 8 * i + 8].copy_from_slice(r);
+    }
 }
 
 fn fmt_case(b: &Built, expect: &str) -> String {
@@ -382,20 +439,34 @@ pub fn gen(seed: u64, tier: &str) -> Vec<String> {
     }
 }
 
+/// Case-line sink: one id per case; a sequence (several calls on the same thread, in order) shares
+/// one id so that the checker replays and shrinks it as a whole.
+struct Out {
+    lines: Vec<String>,
+    n: usize,
+    profile: &'static str,
+}
+impl Out {
+    fn push(&mut self, rest: String) {
+        self.push_seq(vec![rest]);
+    }
+    fn push_seq(&mut self, rests: Vec<String>) {
+        for r in rests {
+            self.lines.push(format!("c16{}.{:06} {}", self.profile, self.n, r));
+        }
+        self.n += 1;
+    }
+}
+
 fn gen_inner(seed: u64, tier: &str) -> Vec<String> {
     let mut rng = Rng::new(seed ^ 0xC16);
     let thorough = tier == "thorough";
     let profile = if overflow_checks_on() { "c" } else { "w" };
-    let mut lines: Vec<String> = Vec::new();
-    let mut n = 0usize;
-    let mut push = |lines: &mut Vec<String>, rest: String| {
-        lines.push(format!("c16{}.{:06} {}", profile, n, rest));
-        n += 1;
-    };
+    let mut out = Out { lines: Vec::new(), n: 0, profile };
     let ok_cases = if thorough { 6000 } else { 400 };
     for _ in 0..ok_cases {
         let b = build(&mut rng, Kind::Ok);
-        push(&mut lines, fmt_case(&b, "ok"));
+        out.push(fmt_case(&b, "ok"));
     }
     let err_cases = if thorough { 800 } else { 60 };
     for (kind, expect) in [
@@ -409,8 +480,25 @@ fn gen_inner(seed: u64, tier: &str) -> Vec<String> {
     ] {
         for _ in 0..err_cases {
             let b = build(&mut rng, kind);
-            push(&mut lines, fmt_case(&b, expect));
+            out.push(fmt_case(&b, expect));
         }
+    }
+    // second use on the same thread: a FAILING extraction (image cut inside its last string: the
+    // Shift-JIS reader runs off the end), then an ordinary conforming image; same case id, replayed
+    // as a whole. State left behind by the failed call must not leak into the next one.
+    let second = if thorough { 400 } else { 30 };
+    for _ in 0..second {
+        let mut seq: Vec<String> = Vec::new();
+        for _ in 0..rng.range(1, 2) {
+            let mut b = build(&mut rng, Kind::Ok);
+            let cut = rng.range(1, 3) as usize;
+            let l = b.img.len();
+            b.img.truncate(l - cut);
+            seq.push(fmt_case(&b, "~"));
+        }
+        let b = build(&mut rng, Kind::Ok);
+        seq.push(fmt_case(&b, "ok"));
+        out.push_seq(seq);
     }
     // malformed: mutations of conforming images (bin-archive level damage)
     let mal = if thorough { 2000 } else { 150 };
@@ -453,9 +541,9 @@ fn gen_inner(seed: u64, tier: &str) -> Vec<String> {
                 b.img = rng.bytes(l);
             }
         }
-        push(&mut lines, fmt_case(&b, "~"));
+        out.push(fmt_case(&b, "~"));
     }
-    lines
+    out.lines
 }
 
 pub fn run_line(_st: &mut super::State, line: &str) -> String {
